@@ -136,4 +136,32 @@ Section CodecProofs.
           apply in_flat_map; exists kv; (split; [exact Hin|]); unfold Codec.rt_member; rewrite Ek, Eb, Ev; left; reflexivity.
     - apply in_flat_map. exists kv. split; [exact Hin|]. unfold Codec.rt_member. rewrite Ek. left. reflexivity.
   Qed.
+  (* ---- the rebuilt @context ---- *)
+  Notation cx_type := (cx_type T P url_ok norm_iri norm).
+  Notation cx_prop := (cx_prop T url_ok norm).
+  (* exactly the vocabularies used: the type's own, and for every known member that encodes to something the property's own
+     and those of the values embedded in it *)
+  Theorem context_exact : forall n row m u,
+    In u (cx_type (S n) row m) <->
+    u = t_vocab_uri row \/
+    exists kv p is_map, In kv m /\ prop_of_key P row (fst kv) = Some (p, is_map) /\
+      (is_map && match assoc (p_name p) m with Some _ => true | None => false end) = false /\
+      rt_prop (rt_type n) p (snd kv) <> JNull /\
+      (u = p_vocab_uri p \/ In u (cx_prop (rt_type n) (cx_type n) p (snd kv))).
+  Proof.
+    intros n row m u. cbn [Codec.cx_type]. unfold cx_members. cbn [In]. rewrite in_flat_map. split.
+    - intros [H|[kv [Hin Hu]]]; [left; symmetry; exact H|]. right. unfold cx_member in Hu.
+      destruct (prop_of_key P row (fst kv)) as [[p is_map]|] eqn:Ek; [|destruct Hu].
+      destruct (is_map && match assoc (p_name p) m with Some _ => true | None => false end) eqn:Eb; [destruct Hu|].
+      exists kv, p, is_map. split; [exact Hin|]. split; [exact Ek|]. split; [exact Eb|].
+      destruct (rt_prop (rt_type n) p (snd kv)) eqn:Ev; try (destruct Hu; fail);
+        (split; [discriminate|]); (destruct Hu as [Hu|Hu]; [left; symmetry; exact Hu|right; exact Hu]).
+    - intros [H|[kv [p [is_map [Hin [Ek [Eb [Hv Hu]]]]]]]]; [left; symmetry; exact H|]. right. exists kv. split; [exact Hin|].
+      unfold cx_member. rewrite Ek, Eb.
+      destruct (rt_prop (rt_type n) p (snd kv)) eqn:Ev; try (exfalso; apply Hv; reflexivity);
+        (destruct Hu as [Hu|Hu]; [left; symmetry; exact Hu|right; exact Hu]).
+  Qed.
+  (* and the round trip of a canonical document leaves it as it is *)
+  Theorem context_roundtrip : forall n row m m', cmembers n row m -> rt_type n row m = Some m' -> cx_type n row m' = cx_type n row m.
+  Proof. intros n row m m' Hc H. rewrite (roundtrip_identity n row m m' Hc H). reflexivity. Qed.
 End CodecProofs.
